@@ -190,7 +190,10 @@ func (pc *ProviderCache) GetResults(ctx context.Context, pid peer.ID, ctxID, met
 	if ok {
 		override = ctxExtended.override
 		for i, xpinfo := range ctxExtended.providers {
-			xmd := ctxExtended.metadatas[i]
+			var xmd []byte
+			if i < len(ctxExtended.metadatas) {
+				xmd = ctxExtended.metadatas[i]
+			}
 			// Skipping the main provider's record if its metadata is nil or is
 			// the same as the one retrieved from the indexer, because such EP
 			// record does not advertise any new protocol.
@@ -199,7 +202,7 @@ func (pc *ProviderCache) GetResults(ctx context.Context, pid peer.ID, ctxID, met
 			}
 			// Use metadata from advertisement if one hasn't been specified for
 			// the extended provider
-			if xmd == nil {
+			if len(xmd) == 0 {
 				xmd = metadata
 			}
 			xpinfo := xpinfo
@@ -219,7 +222,10 @@ func (pc *ProviderCache) GetResults(ctx context.Context, pid peer.ID, ctxID, met
 	// Adding chain-level EPs if such exist
 	extended := rpi.provider.ExtendedProviders
 	for i, xpinfo := range extended.Providers {
-		xmd := extended.Metadatas[i]
+		var xmd []byte
+		if i < len(extended.Metadatas) {
+			xmd = extended.Metadatas[i]
+		}
 		// Skipping the main provider's record if its metadata is nil or is the
 		// same as the one retrieved from the indexer, because such EP record
 		// does not advertise any new protocol.
